@@ -500,7 +500,9 @@ def record_trace(exe, args, path, timeout=600, leaks=False):
             except ValueError:
                 pass
         detail = re.sub(r"[^\x20-\x7e]", " ", r.stderr[-600:])
-        good.append(json.dumps({"e": kind, "op": kind, "k": kind, "rc": r.returncode, "frame": frame, "detail": detail}))
+        good.append(json.dumps({"e": kind, "op": kind, "k": kind, "rc": r.returncode, "frame": frame, "detail": detail,
+                                "a": [], "q": 0, "w": "", "out": "terminated", "r": 0, "n": 0, "f": "", "l": "", "v": 0,
+                                "s": 0, "t": 0, "id": 0}))
         with open(path, "w") as f:
             f.write("\n".join(good) + "\n")
     return path
